@@ -195,11 +195,11 @@ func init() {
 			}
 			return builderGet(a[0])
 		},
-		"(*strings.Builder).Len":    func(fr *frame, a []value) value { return len(builderGet(a[0])) },
+		"(*strings.Builder).Len": func(fr *frame, a []value) value { return len(builderGet(a[0])) },
 
-		"strings.ToUpper":    func(fr *frame, a []value) value { return strings.ToUpper(a[0].(string)) },
-		"strings.ToLower":    func(fr *frame, a []value) value { return strings.ToLower(a[0].(string)) },
-		"strings.Title":      func(fr *frame, a []value) value { return strings.Title(a[0].(string)) }, //nolint
+		"strings.ToUpper": func(fr *frame, a []value) value { return strings.ToUpper(a[0].(string)) },
+		"strings.ToLower": func(fr *frame, a []value) value { return strings.ToLower(a[0].(string)) },
+		"strings.Title":   func(fr *frame, a []value) value { return strings.Title(a[0].(string)) }, //nolint
 		"strings.HasPrefix": func(fr *frame, a []value) value {
 			if isBstr(a[0]) || isBstr(a[1]) {
 				return bstrHasPrefix(a[0], a[1])
@@ -262,17 +262,19 @@ func init() {
 			return tuple{b, ok}
 		},
 
-		"unicode.IsLower":  func(fr *frame, a []value) value { return runePred(fr, "lower", unicode.IsLower, a[0]) },
-		"unicode.IsUpper":  func(fr *frame, a []value) value { return runePred(fr, "upper", unicode.IsUpper, a[0]) },
-		"unicode.IsLetter": func(fr *frame, a []value) value { return runePred(fr, "letter", unicode.IsLetter, a[0]) },
-		"unicode.IsNumber": func(fr *frame, a []value) value { return runePred(fr, "number", unicode.IsNumber, a[0]) },
-		"unicode.IsDigit":  func(fr *frame, a []value) value { return runePred(fr, "digit", unicode.IsDigit, a[0]) },
-		"unicode.IsSpace":  func(fr *frame, a []value) value { return unicode.IsSpace(a[0].(rune)) },
-		"unicode.IsPunct":  func(fr *frame, a []value) value { return unicode.IsPunct(a[0].(rune)) },
-		"unicode.IsSymbol": func(fr *frame, a []value) value { return unicode.IsSymbol(a[0].(rune)) },
-		"unicode.ToUpper":  func(fr *frame, a []value) value { return runeMap(fr, "toupper", unicode.ToUpper, a[0]) },
-		"unicode.ToLower":  func(fr *frame, a []value) value { return runeMap(fr, "tolower", unicode.ToLower, a[0]) },
-		"unicode.ToTitle":  func(fr *frame, a []value) value { return unicode.ToTitle(a[0].(rune)) },
+		"unicode.IsLower":   func(fr *frame, a []value) value { return runePred(fr, "lower", unicode.IsLower, a[0]) },
+		"unicode.IsUpper":   func(fr *frame, a []value) value { return runePred(fr, "upper", unicode.IsUpper, a[0]) },
+		"unicode.IsLetter":  func(fr *frame, a []value) value { return runePred(fr, "letter", unicode.IsLetter, a[0]) },
+		"unicode.IsNumber":  func(fr *frame, a []value) value { return runePred(fr, "number", unicode.IsNumber, a[0]) },
+		"unicode.IsDigit":   func(fr *frame, a []value) value { return runePred(fr, "digit", unicode.IsDigit, a[0]) },
+		"unicode.IsSpace":   func(fr *frame, a []value) value { return runePred(fr, "space", unicode.IsSpace, a[0]) },
+		"unicode.IsPunct":   func(fr *frame, a []value) value { return runePred(fr, "punct", unicode.IsPunct, a[0]) },
+		"unicode.IsSymbol":  func(fr *frame, a []value) value { return runePred(fr, "symbol", unicode.IsSymbol, a[0]) },
+		"unicode.IsMark":    func(fr *frame, a []value) value { return runePred(fr, "mark", unicode.IsMark, a[0]) },
+		"unicode.IsControl": func(fr *frame, a []value) value { return runePred(fr, "control", unicode.IsControl, a[0]) },
+		"unicode.ToUpper":   func(fr *frame, a []value) value { return runeMap(fr, "toupper", unicode.ToUpper, a[0]) },
+		"unicode.ToLower":   func(fr *frame, a []value) value { return runeMap(fr, "tolower", unicode.ToLower, a[0]) },
+		"unicode.ToTitle":   func(fr *frame, a []value) value { return unicode.ToTitle(a[0].(rune)) },
 		"unicode/utf8.RuneCountInString": func(fr *frame, a []value) value {
 			if s, ok := a[0].(sym); ok && s.k == sStr {
 				return sym{sBV, 64, "(rlen " + s.t + ")"}
@@ -285,8 +287,8 @@ func init() {
 			}
 			return utf8.RuneCount(bytesOf(a[0]))
 		},
-		"unicode/utf8.RuneLen":        func(fr *frame, a []value) value { return utf8.RuneLen(a[0].(rune)) },
-		"unicode/utf8.ValidString":    func(fr *frame, a []value) value { return utf8.ValidString(a[0].(string)) },
+		"unicode/utf8.RuneLen":         func(fr *frame, a []value) value { return utf8.RuneLen(a[0].(rune)) },
+		"unicode/utf8.ValidString":     func(fr *frame, a []value) value { return utf8.ValidString(a[0].(string)) },
 		"unicode/utf8.RuneError_dummy": nil,
 
 		"math.Round": func(fr *frame, a []value) value {
@@ -473,8 +475,8 @@ func init() {
 			return e.t != nil && strings.Contains(fr.i.errString(fr, e), "no such file or directory")
 		},
 		"path/filepath.EvalSymlinks": func(fr *frame, a []value) value { return tuple{a[0], iface{}} },
-		"strconv.Itoa":  func(fr *frame, a []value) value { return fmt.Sprint(a[0].(int)) },
-		"strconv.Quote": func(fr *frame, a []value) value { return fmt.Sprintf("%q", a[0].(string)) },
+		"strconv.Itoa":               func(fr *frame, a []value) value { return fmt.Sprint(a[0].(int)) },
+		"strconv.Quote":              func(fr *frame, a []value) value { return fmt.Sprintf("%q", a[0].(string)) },
 	} {
 		if v != nil {
 			natives[k] = v
@@ -594,7 +596,6 @@ func runeMap(fr *frame, name string, f func(rune) rune, r value) value {
 	}
 	return f(r.(rune))
 }
-
 
 // modStub is math.Mod in FP mode: C fmod from the IEEE remainder (fp.rem rounds the quotient
 // to nearest, fmod truncates it): with r = rem(|x|,|y|), fmod(|x|,|y|) = r < 0 ? r+|y| : r
